@@ -129,3 +129,171 @@ def expectedFrames (lay : Layout) (buf : Bytes) (recs : List Rec) : R (List Fram
   (states buf recs).mapM (parseChannels lay)
 
 end Drx.Vwsc.Spec
+
+/-! ### channel records: raw field values, their byte layout (from the format notes), and what a reader must report -/
+namespace Drx.Vwsc.Spec
+open Drx Drx.Vwsc
+
+def encU16 (n : Nat) : Bytes := encOrd .be 2 n
+def b2i (b : UInt8) : Int := (b.toNat : Int)
+
+/-- Director 4 main channel, 20 bytes -/
+structure RawMainD4 where
+  flags : Int
+  transDuration : UInt8        -- bit 7: "changing area" flag, bits 0-6: duration
+  transChunk : UInt8
+  fps : UInt8
+  transition : UInt8
+  sound1 : Int
+  sound2 : Int
+  soundFlags : Int
+  unknown1 : Int
+  unknown2 : Int
+  script : Int
+  unknown3 : Int
+
+def RawMainD4.Valid (m : RawMainD4) : Prop :=
+  In16 m.flags ∧ In16 m.sound1 ∧ In16 m.sound2 ∧ In16 m.soundFlags ∧ In16 m.unknown1 ∧ In16 m.unknown2 ∧ In16 m.script ∧ In16 m.unknown3
+
+def encMainD4 (m : RawMainD4) : Bytes :=
+  encS .be 2 m.flags ++ [m.transDuration, m.transChunk, m.fps, m.transition] ++ encS .be 2 m.sound1 ++ encS .be 2 m.sound2 ++
+    encS .be 2 m.soundFlags ++ encS .be 2 m.unknown1 ++ encS .be 2 m.unknown2 ++ encS .be 2 m.script ++ encS .be 2 m.unknown3
+
+def viewMainD4 (m : RawMainD4) : Option Main :=
+  if b2i m.fps ≠ 0 ∨ m.sound1 ≠ 0 ∨ m.sound2 ≠ 0 ∨ m.script ≠ 0 then
+    some ⟨b2i m.fps, m.sound1, m.sound2, m.script, .d4 (transitionName (b2i m.transition)) (b2i m.transChunk) (b2i m.transDuration % 128)⟩
+  else none
+
+/-- Director 4 palette channel: 18 bytes read, 2 bytes never looked at -/
+structure RawPalD4 where
+  paletteId : Int
+  unknown2 : Int
+  opcode : UInt8
+  fps : UInt8
+  unknown4 : Int
+  cycles : Int
+  unknown6 : Int
+  unknown7 : Int
+  unknown8 : Int
+  unknown9 : Int
+  pad0 : UInt8
+  pad1 : UInt8
+
+def RawPalD4.Valid (p : RawPalD4) : Prop :=
+  In16 p.paletteId ∧ In16 p.unknown2 ∧ In16 p.unknown4 ∧ In16 p.cycles ∧ In16 p.unknown6 ∧ In16 p.unknown7 ∧ In16 p.unknown8 ∧ In16 p.unknown9
+
+def encPalD4 (p : RawPalD4) : Bytes :=
+  encS .be 2 p.paletteId ++ encS .be 2 p.unknown2 ++ [p.opcode, p.fps] ++ encS .be 2 p.unknown4 ++ encS .be 2 p.cycles ++
+    encS .be 2 p.unknown6 ++ encS .be 2 p.unknown7 ++ encS .be 2 p.unknown8 ++ encS .be 2 p.unknown9 ++ [p.pad0, p.pad1]
+
+def viewPalD4 (p : RawPalD4) : Option Pal :=
+  if p.paletteId ≠ 0 then some ⟨b2i p.fps, operationName (b2i p.opcode), p.paletteId, p.cycles⟩ else none
+
+/-- Director 4 sprite channel, 20 bytes -/
+structure RawSpriteD4 where
+  spriteType : Int
+  fg : UInt8
+  bg : UInt8
+  flags : UInt8
+  ink : UInt8                 -- bits 0-5 ink, bit 6 trails, bit 7 another flag
+  castId : Int
+  y : Int
+  x : Int
+  height : Int
+  width : Int
+  flag1 : Nat
+  flag2 : Nat                 -- bit 15 moveable, bit 14 editable
+
+def RawSpriteD4.Valid (s : RawSpriteD4) : Prop :=
+  In16 s.spriteType ∧ In16 s.castId ∧ In16 s.y ∧ In16 s.x ∧ In16 s.height ∧ In16 s.width ∧ s.flag1 < 65536 ∧ s.flag2 < 65536
+
+def encSpriteD4 (s : RawSpriteD4) : Bytes :=
+  encS .be 2 s.spriteType ++ [s.fg, s.bg, s.flags, s.ink] ++ encS .be 2 s.castId ++ encS .be 2 s.y ++ encS .be 2 s.x ++
+    encS .be 2 s.height ++ encS .be 2 s.width ++ encU16 s.flag1 ++ encU16 s.flag2
+
+def viewSpriteD4 (s : RawSpriteD4) : Option Sprite :=
+  if s.castId > 0 then
+    some ⟨s.spriteType, s.castId, b2i s.fg, b2i s.bg, b2i s.ink % 64, some (b2i s.flags), s.y, s.x, s.height, s.width, b2i s.ink / 64 % 2,
+          (s.flag2 : Int) / 32768 % 2 ≠ 0, (s.flag2 : Int) / 16384 % 2 ≠ 0⟩
+  else none
+
+/-- Director 5 main channel, 24 bytes -/
+structure RawMainD5 where
+  unknown01 : Int
+  script : Int
+  unknown03 : Int
+  sound1 : Int
+  unknown05 : Int
+  sound2 : Int
+  unknown07 : Int
+  transCast : Int
+  unknown08 : Int
+  unknown09 : Int
+  fps : Int
+  unknown10 : Int
+
+def RawMainD5.Valid (m : RawMainD5) : Prop :=
+  In16 m.unknown01 ∧ In16 m.script ∧ In16 m.unknown03 ∧ In16 m.sound1 ∧ In16 m.unknown05 ∧ In16 m.sound2 ∧ In16 m.unknown07 ∧
+  In16 m.transCast ∧ In16 m.unknown08 ∧ In16 m.unknown09 ∧ In16 m.fps ∧ In16 m.unknown10
+
+def encMainD5 (m : RawMainD5) : Bytes :=
+  encS .be 2 m.unknown01 ++ encS .be 2 m.script ++ encS .be 2 m.unknown03 ++ encS .be 2 m.sound1 ++ encS .be 2 m.unknown05 ++
+    encS .be 2 m.sound2 ++ encS .be 2 m.unknown07 ++ encS .be 2 m.transCast ++ encS .be 2 m.unknown08 ++ encS .be 2 m.unknown09 ++
+    encS .be 2 m.fps ++ encS .be 2 m.unknown10
+
+def viewMainD5 (m : RawMainD5) : Option Main :=
+  if m.fps ≠ 0 ∨ m.sound1 ≠ 0 ∨ m.sound2 ≠ 0 ∨ m.script ≠ 0 then some ⟨m.fps, m.sound1, m.sound2, m.script, .d5 m.transCast⟩ else none
+
+/-- Director 5 palette channel: 12 bytes read, 12 bytes never looked at -/
+structure RawPalD5 where
+  unknown01 : Int
+  paletteId : Int
+  fps : UInt8
+  opcode : UInt8
+  unknown02 : Int
+  unknown03 : Int
+  cycles : Int
+  pad : Bytes
+
+def RawPalD5.Valid (p : RawPalD5) : Prop :=
+  In16 p.unknown01 ∧ In16 p.paletteId ∧ In16 p.unknown02 ∧ In16 p.unknown03 ∧ In16 p.cycles ∧ p.pad.length = 12
+
+def encPalD5 (p : RawPalD5) : Bytes :=
+  encS .be 2 p.unknown01 ++ encS .be 2 p.paletteId ++ [p.fps, p.opcode] ++ encS .be 2 p.unknown02 ++ encS .be 2 p.unknown03 ++
+    encS .be 2 p.cycles ++ p.pad
+
+def viewPalD5 (p : RawPalD5) : Option Pal :=
+  if p.paletteId ≠ 0 then some ⟨b2i p.fps, operationName (b2i p.opcode), p.paletteId, p.cycles⟩ else none
+
+/-- Director 5 sprite channel, 24 bytes -/
+structure RawSpriteD5 where
+  unknown01 : UInt8
+  ink : UInt8
+  spriteType : Int
+  castId : Int
+  unknown02 : Int
+  unknown03 : Int
+  fg : UInt8
+  bg : UInt8
+  y : Int
+  x : Int
+  height : Int
+  width : Int
+  flag2 : Nat
+  flag1 : Nat
+
+def RawSpriteD5.Valid (s : RawSpriteD5) : Prop :=
+  In16 s.spriteType ∧ In16 s.castId ∧ In16 s.unknown02 ∧ In16 s.unknown03 ∧ In16 s.y ∧ In16 s.x ∧ In16 s.height ∧ In16 s.width ∧
+  s.flag2 < 65536 ∧ s.flag1 < 65536
+
+def encSpriteD5 (s : RawSpriteD5) : Bytes :=
+  [s.unknown01, s.ink] ++ encS .be 2 s.spriteType ++ encS .be 2 s.castId ++ encS .be 2 s.unknown02 ++ encS .be 2 s.unknown03 ++
+    [s.fg, s.bg] ++ encS .be 2 s.y ++ encS .be 2 s.x ++ encS .be 2 s.height ++ encS .be 2 s.width ++ encU16 s.flag2 ++ encU16 s.flag1
+
+def viewSpriteD5 (s : RawSpriteD5) : Option Sprite :=
+  if s.castId > 0 then
+    some ⟨s.spriteType, s.castId, b2i s.fg, b2i s.bg, b2i s.ink % 64, none, s.y, s.x, s.height, s.width, b2i s.ink / 64 % 2,
+          (s.flag2 : Int) / 32768 % 2 ≠ 0, (s.flag2 : Int) / 16384 % 2 ≠ 0⟩
+  else none
+
+end Drx.Vwsc.Spec
